@@ -3,11 +3,21 @@ M = "rope.base.oi.memorydb:"
 record("_DataFiles", fields={})
 record("Project", fields={"data_files": "_DataFiles"})
 record("MemoryDB", fields={"_files": "Map[Str,Opaque[FileInfo]]", "project": "Project"})
-contract("MemoryDB.persist", abstract=True, is_property=True, pure=True, params={"self": "MemoryDB"}, returns="Bool")
+contract("MemoryDB.persist", abstract=True, is_property=True, pure=True, heap_independent=True, params={"self": "MemoryDB"}, returns="Bool")
+specfun("stored", ["_DataFiles", "Str"], "Opt[Map[Str,Opaque[FileInfo]]]", note="what read_data answers for that name: None or the complete saved dict")
+ghost("saved", "Map[Str,Opaque[FileInfo]]")
+ghost("saved_name", "Str")
+ghost("writes", "Int")
 contract("_DataFiles.read_data", abstract=True, params={"self": "_DataFiles", "name": "Str"}, returns="Opt[Map[Str,Opaque[FileInfo]]]",
+         ensures=["result == stored(self, name)"],
          note="None or the complete dict last written by MemoryDB.write (c18_datafiles.py)")
-contract("_DataFiles.write_data", abstract=True, params={"self": "_DataFiles", "name": "Str", "data": "Map[Str,Opaque[FileInfo]]"})
+contract("_DataFiles.write_data", abstract=True, params={"self": "_DataFiles", "name": "Str", "data": "Map[Str,Opaque[FileInfo]]"},
+         modifies=["saved", "saved_name", "writes"], ensures=["saved == data", "saved_name == name", "writes == old(writes) + 1"])
 contract("MemoryDB._load_files", source=M + "MemoryDB._load_files", params={"self": "MemoryDB"}, modifies=["self._files"], raises={},
-         note="no exception for None or a complete value")
-contract("MemoryDB.write", source=M + "MemoryDB.write", params={"self": "MemoryDB"}, modifies=[], raises={},
-         note="saves exactly the in-memory dict")
+         ensures=["implies(self.persist and not is_none(stored(self.project.data_files, 'objectdb')), self._files == val(stored(self.project.data_files, 'objectdb')))",
+                  "implies(not self.persist or is_none(stored(self.project.data_files, 'objectdb')), forall(lambda k: not (k in self._files), 'Str'))"],
+         note="no exception for None or a complete value; the dict is the saved one, else empty")
+contract("MemoryDB.write", source=M + "MemoryDB.write", params={"self": "MemoryDB"}, modifies=["saved", "saved_name", "writes"], raises={},
+         ensures=["implies(self.persist, saved == self._files and saved_name == 'objectdb' and writes == old(writes) + 1)",
+                  "implies(not self.persist, writes == old(writes))"],
+         note="saves exactly the in-memory dict under the name the loader reads, or nothing when persistence is off")
